@@ -56,8 +56,8 @@ pub fn c09_system(s: Shape) {
     let mut ev_done_t: Vec<u64> = Vec::new();
     let mut ev_done_rt: Vec<u64> = Vec::new();
     let mut open: Vec<(EntryStrongPtr, u64)> = Vec::new();
-    for _ in 0..hist {
-        t += vrt::any_u64("gap", 0, 600);
+    for i in 0..hist {
+        t += vrt::any_u64("gap", 0, if s.p[4] == 1 { 100 } else { 600 });
         clock::set_ns(t * 1_000_000);
         let e = EntryBuilder::new(res.clone())
             .with_resource_type(ResourceType::Common)
@@ -66,11 +66,14 @@ pub fn c09_system(s: Shape) {
             .build()
             .unwrap();
         ev_pass_t.push(t);
-        if vrt::any_bool("complete") {
+        // p4 == 1: a fixed pattern (the first two entries complete, the others stay in flight) with a wider
+        // spread of response times, aimed at the capacity estimate of the BBR strategy
+        let completes = if s.p[4] == 1 { i < 2 } else { vrt::any_bool("complete") };
+        if completes {
             let rt = match vrt::any_u32("rt", 0, 2) {
-                0 => 10u64,
+                0 => if s.p[4] == 1 { 1u64 } else { 10u64 },
                 1 => 100,
-                _ => 250,
+                _ => if s.p[4] == 1 { 1000 } else { 250 },
             };
             t += rt;
             clock::set_ns(t * 1_000_000);
